@@ -19,7 +19,7 @@ import (
 
 type variant struct {
 	Name   string
-	Expect string // "silent" or "fire:R1,R2"
+	Expect string              // "silent" or "fire:R1,R2"
 	Files  map[string][]string // repo-relative path → diff lines of that file (hunks)
 }
 
